@@ -313,6 +313,15 @@ func C09(c *core.Ctx) {
 	variants := [][]string{{"A1", "A2", "B1"}, {"A1"}, {"A2"}, {"B1"}}
 	runs := make([][]*run, len(cases))
 	files := map[string]string{}
+	nBFirst := 0
+	for i := range cases {
+		if hashMod(raws[i], c.Seed+1, 2) == 0 {
+			nBFirst++
+		}
+	}
+	if len(cases) > 100 && (nBFirst == 0 || nBFirst == len(cases)) {
+		core.Machinery("C09: the order of the two interfaces in the file does not vary (%d of %d)", nBFirst, len(cases))
+	}
 	for i, o := range cases {
 		bFirst := hashMod(raws[i], c.Seed+1, 2) == 0
 		for v, ms := range variants {
